@@ -13,8 +13,23 @@ FONTSPEC := kind vertical base ndiffs (code glyphindex)* hasToU ntou (cid nu u*)
 PAGE     := nwalk n* nfonts FONTREF* nreads n* nshows (fontidx ncodes code*)* ngops (code v)*
              code: 0 re 1 m 2 l 3 h 4 paint 5 n 6 q 7 Q 8 w(v) 9 operand(v)
 FONTREF  := 0 objid | 1 FONTSPEC
+
+Process-wide state and per-page interpreter state (Model/ProcGlobals.lean):
+  ginit  nl lit* nk kw*                       globals := G0 with these names already interned (insertion order)
+  gcall  npages GPAGE*                        one call: a fresh interpreter renders the pages in order
+  gmetrics key                                FONT_METRICS lookup
+GPAGE    := ncs (key kind arg)* nops (code a b)*     kind 0 named(arg) 1 [/ICCBased N=arg] 2 [/DeviceN arg names]
+             code 0 Tc 1 Tw 2 Tz 3 TL 4 Ts 5 Tr (b-1000 = value) 6 Tf(a = name, b-1000 = size) 7 q 8 Q 9 cs(a) 10 CS(a)
+                  11 stray name(a) 12 unknown operator(a) 13 G g RG rg K k (a = 0 gray 1 rgb 2 cmyk, b = 1 stroking)
+
+Object cache with mutable containers (Model/ProcObjCache.lean); a fresh parse of object n gives [n]:
+  oworld caching nids id*                     which objects exist; state := init
+  oget n | omut n v | ocpmut n v              reply: val <contents|none> fresh=<0|1> same=<0|1>
+                                              (same: the reference returned is the one returned last time for n)
 -/
 import PdfVerif.Model.ProcessEnc
+import PdfVerif.Model.ProcGlobals
+import PdfVerif.Model.ProcObjCache
 
 open PdfVerif PdfVerif.Process
 
@@ -124,6 +139,53 @@ structure DState where
   world : World
   docs : List (Nat × DocSpec)
   st : State
+  g : ProcGlobals.Globals := ProcGlobals.G0 [] []
+  ocaching : Bool := true
+  oids : List Nat := []
+  ost : ObjCache.St := ObjCache.St.init
+  olast : List (Nat × Nat) := []
+
+namespace G
+open PdfVerif.ProcGlobals
+
+def pTriple : P (Nat × Nat × Nat) := pPair pNat (pPair pNat pNat)
+
+def pGPage : P GPage := fun ts =>
+  match pList pTriple ts with
+  | none => none
+  | some (cs, ts1) =>
+  match pList pTriple ts1 with
+  | none => none
+  | some (ops, ts2) =>
+    let val (b : Nat) : Int := (b : Int) - 1000
+    let cs' := cs.map (fun e => (e.1, match e.2.1 with
+      | 0 => CsSpec.named e.2.2 | 1 => CsSpec.icc e.2.2 | _ => CsSpec.devicen e.2.2))
+    let ops' := ops.filterMap (fun e => match e.1 with
+      | 0 => some (TOp.Tc (val e.2.2)) | 1 => some (TOp.Tw (val e.2.2)) | 2 => some (TOp.Tz (val e.2.2))
+      | 3 => some (TOp.TL (val e.2.2)) | 4 => some (TOp.Ts (val e.2.2)) | 5 => some (TOp.Tr (val e.2.2))
+      | 6 => some (TOp.Tf e.2.1 (val e.2.2)) | 7 => some TOp.q | 8 => some TOp.Q
+      | 9 => some (TOp.cs e.2.1) | 10 => some (TOp.CS e.2.1) | 11 => some (TOp.lit e.2.1)
+      | 12 => some (TOp.unknown e.2.1) | 13 => some (TOp.dev (e.2.2 != 0) e.2.1) | _ => none)
+    if ops'.length != ops.length then none else some ({ cs := cs', ops := ops' }, ts2)
+
+def showCS (c : Option CS) : String :=
+  match c with
+  | some c => toString c.1 ++ ":" ++ toString c.2
+  | none => "none"
+
+def showPState (s : PState) : String :=
+  "csmap=" ++ ",".intercalate (s.csmap.map (fun e => toString e.1 ++ ":" ++ toString e.2.1 ++ ":" ++ toString e.2.2)) ++
+  " scs=" ++ showCS s.scs ++ " ncs=" ++ showCS s.ncs ++
+  " ts=" ++ ",".intercalate ([s.ts.fontsize, s.ts.charspace, s.ts.wordspace, s.ts.scaling, s.ts.leading,
+      s.ts.render, s.ts.rise].map toString) ++
+  " gs=" ++ toString s.gstack.length ++ " err=" ++ (if s.err then "1" else "0")
+
+def showStatic (g : Globals) : String :=
+  "cs=" ++ ",".intercalate (g.colorspaces.map (fun e => toString e.1 ++ ":" ++ toString e.2.1 ++ ":" ++ toString e.2.2)) ++
+  " fm=" ++ toString ((g.metrics.foldl (fun acc e => acc + (e.1 + 1) * (e.2.1 * 1000003 + e.2.2)) 0) % 2305843009213693951) ++
+  " nfm=" ++ toString g.metrics.length ++ " strict=" ++ (if g.strict then "1" else "0")
+
+end G
 
 def mkWorld (cms ums : List Nat) : World :=
   { encInit := encTables,
@@ -163,6 +225,21 @@ def showPage (d : DocSpec) (k : Option Nat) (p : PageOut) : String :=
   let flat := parts.flatten
   let sh := if p.shapes.isEmpty then "-" else ",".intercalate (p.shapes.map (fun s => toString s.1 ++ ":" ++ toString s.2))
   (if flat.isEmpty then "-" else ",".intercalate flat) ++ " " ++ sh
+
+def oStep (ds : DState) (n : Nat) (op : ObjCache.Op) : DState × String :=
+  let parse : Nat → Option (List Nat) := fun k => if ds.oids.contains k then some [k] else none
+  let addr := (ObjCache.getobj parse ds.ocaching ds.ost n).1
+  let r := ObjCache.step parse ds.ocaching ds.ost op
+  let same := match addr, alookup n ds.olast with
+    | some a, some b => a == b
+    | _, _ => false
+  let olast := match addr with
+    | some a => aset n a ds.olast
+    | none => ds.olast
+  ({ ds with ost := r.1, olast := olast },
+   "val " ++ (match r.2 with | some c => csv c | none => "none") ++
+   " fresh=" ++ (if r.2 == parse n then "1" else "0") ++ " same=" ++ (if same then "1" else "0") ++
+   " cached=" ++ csv (sortNat (r.1.cache.map (·.1))))
 
 def stepLine (ds : DState) (line : String) : DState × String :=
   match words line with
@@ -241,6 +318,35 @@ def stepLine (ds : DState) (line : String) : DState × String :=
             | _ => "?"
           ({ ds with st := s1 }, os ++ " # " ++ showTables s1.tables)
         | _ => (ds, "bad-op")
+      | "ginit", _ =>
+        match pPair (pList pNat) (pList pNat) ns with
+        | some ((ls, ks), []) =>
+          let g := ProcGlobals.G0 ls ks
+          ({ ds with g := g }, "ok # " ++ G.showStatic g ++ " ts0=" ++
+            (G.showPState ProcGlobals.PState.init))
+        | _ => (ds, "bad-op")
+      | "gstrict", [v] => ({ ds with g := { ds.g with strict := v != 0 } }, "ok")
+      | "gcall", _ =>
+        match pList G.pGPage ns with
+        | some (pages, []) =>
+          let r := ProcGlobals.renderCall ds.g ProcGlobals.PState.init pages
+          let alone := pages.map (fun pg => (ProcGlobals.renderPage ds.g ProcGlobals.PState.init pg).1)
+          ({ ds with g := r.2 }, "states " ++ ";".intercalate (r.1.map G.showPState) ++
+            " # alone=" ++ (if alone == r.1 then "1" else "0") ++
+            " newlits=" ++ csv (r.2.lits.drop ds.g.lits.length) ++ " newkw=" ++ csv (r.2.kwds.drop ds.g.kwds.length) ++
+            " " ++ G.showStatic r.2)
+        | _ => (ds, "bad-op")
+      | "oworld", caching :: rest =>
+        match pList pNat rest with
+        | some (ids, []) => ({ ds with ocaching := caching != 0, oids := ids, ost := ObjCache.St.init, olast := [] }, "ok")
+        | _ => (ds, "bad-op")
+      | "oget", [n] => oStep ds n (.get n)
+      | "omut", [n, v] => oStep ds n (.mutInPlace n v)
+      | "ocpmut", [n, v] => oStep ds n (.copyMut n v)
+      | "gmetrics", [k] =>
+        (ds, match ProcGlobals.metricsOf ds.g k with
+          | some d => "metrics " ++ toString d.1 ++ "," ++ toString d.2
+          | none => "metrics none")
       | _, _ => (ds, "bad-op")
 
 partial def loop (h : IO.FS.Stream) (out : IO.FS.Stream) (ds : DState) : IO Unit := do
